@@ -294,3 +294,136 @@ UNITS = [
          must_have=[r"lower_bound_linear_impl.postcondition", r"loop_invariant_step", r"loop_decreases"], checks=["--bounds-check", "--pointer-check"],
          note="lower_bound_linear_impl<unsigned>"),
 ]
+
+
+# ---------------------------------------------------------------------------
+# partition and heap sort: bounded (symbolic contents, every array of length <= N)
+# ---------------------------------------------------------------------------
+SWAP_RULES = [
+    Rule(r"static_assert\([^;]*;", "", 3, note="static_asserts on T dropped (T is a scalar binding)"),
+    Rule(r"T temp\{move\(a\)\};", "T temp = *a;", 1, note="move of a trivially copyable scalar = copy; T& -> T*"),
+    Rule(r"a = move\(b\);", "*a = *b;", 1, note="T& -> T*"),
+    Rule(r"b = move\(temp\);", "*b = temp;", 1, note="T& -> T*"),
+]
+
+
+def piece_trivial_swap(ctx):
+    return ctx.func(ALGO, r"CELER_FORCEINLINE_FUNCTION void trivial_swap\(T& a, T& b\) noexcept", SWAP_RULES, name="trivial_swap")
+
+
+PART_RULES = [
+    Rule(r"\bpred\(", "VERIF_PRED(", 2, note="Predicate functor call -> macro (symbolic predicate table)"),
+    Rule(r"trivial_swap\(\*first, \*last\);", "trivial_swap(first, last);", 1, note="T& arguments -> pointers"),
+]
+
+
+def build_partition(N):
+    def build(ctx):
+        sw = piece_trivial_swap(ctx)
+        pc = ctx.func(IMPL, r"CELER_FUNCTION BidirectionalIterator partition_impl\(BidirectionalIterator first,", PART_RULES, name="detail::partition_impl")
+        return (HDR + """
+typedef unsigned T; typedef T* BidirectionalIterator;
+unsigned g_predbits;                         /* symbolic predicate: pred(x) = bit x of g_predbits (elements are < 32) */
+#define VERIF_PRED(x) (((g_predbits >> (x)) & 1u) != 0)
+static void trivial_swap(T* a, T* b)
+{""" + sw.body + """}
+BidirectionalIterator partition_impl(BidirectionalIterator first, BidirectionalIterator last)
+{""" + pc.body + """}
+#define N %d
+void h_partition(void)
+{
+    T a[N + 1], a0[N + 1]; unsigned n, w;
+    __CPROVER_assume(n <= N && w < 32);
+    for (unsigned i = 0; i < N; ++i) { __CPROVER_assume(a[i] < 32); a0[i] = a[i]; }
+    T* r = partition_impl(a, a + n);
+    __CPROVER_assert(r >= a && r <= a + n, "partition.range: result inside [first, last]");
+    unsigned c0 = 0, c1 = 0;
+    for (unsigned i = 0; i < N; ++i)
+    {
+        if (i < n)
+        {
+            __CPROVER_assert((i < (unsigned)(r - a)) == VERIF_PRED(a[i]), "partition.split: true elements exactly before the result (std::partition)");
+            c0 += (a0[i] == w); c1 += (a[i] == w);
+        }
+        else
+            __CPROVER_assert(a[i] == a0[i], "partition.frame: nothing outside [first, last) written");
+    }
+    __CPROVER_assert(c0 == c1, "partition.permutation: multiset of elements preserved (witness value)");
+    VERIF_CANARY();
+}
+""" % N)
+    return build
+
+
+HEAP_RULES = [
+    Rule(r"using difference_type = difference_type_t<RandomAccessIt>;", "", (0, 1), note="type alias -> typedef ptrdiff_t (bound)"),
+    Rule(r"using value_type =\s*typename std::iterator_traits<RandomAccessIt>::value_type;", "", (0, 1), note="type alias -> typedef T (bound)"),
+    Rule(r"\bcomp\(\*(\w+), \*\((\w+) \+ difference_type\(1\)\)\)", r"VERIF_COMP(*\1, *(\2 + 1))", (0, 2), note="Compare functor call -> macro; functional cast"),
+    Rule(r"\bcomp\(\*(\w+), \*(\w+)\)", r"VERIF_COMP(*\1, *\2)", "*", note="Compare functor call -> macro"),
+    Rule(r"\bcomp\(\*(\w+), (\w+)\)", r"VERIF_COMP(*\1, \2)", "*", note="Compare functor call -> macro"),
+    Rule(r"value_type top\(trivial_move\(\*start\)\);", "value_type top = *start;", (0, 1), note="move of a scalar = copy"),
+    Rule(r"trivial_move\(([^()]*)\)", r"\1", "*", note="move of a scalar = copy"),
+    Rule(r"(sift_down|pop_heap|make_heap|sort_heap|partial_sort)<Compare>\(", r"\1(", "*", note="explicit template argument dropped"),
+    Rule(r"trivial_swap\(\*(\w+), \*(--)?(\w+)\);", r"trivial_swap(\1, \2\3);", "*", note="T& arguments -> pointers"),
+    Rule(r", comp\b", "", "*", note="comparator argument dropped (bound by macro)"),
+    Rule(r"\(void\)--n", "--n", (0, 1), note="(void) cast dropped"),
+]
+
+
+def build_heapsort(T, N):
+    def build(ctx):
+        sw = piece_trivial_swap(ctx)
+        fns = []
+        sigs = [
+            ("sift_down", r"CELER_FUNCTION void sift_down\(RandomAccessIt first,", "void sift_down(RandomAccessIt first, RandomAccessIt last_unused, difference_type len, RandomAccessIt start)"),
+            ("pop_heap", r"CELER_FORCEINLINE_FUNCTION void pop_heap\(RandomAccessIt first,", "void pop_heap(RandomAccessIt first, RandomAccessIt last, difference_type len)"),
+            ("make_heap", r"^make_heap\(RandomAccessIt first, RandomAccessIt last, Compare comp\)", "void make_heap(RandomAccessIt first, RandomAccessIt last)"),
+            ("sort_heap", r"^sort_heap\(RandomAccessIt first, RandomAccessIt last, Compare comp\)", "void sort_heap(RandomAccessIt first, RandomAccessIt last)"),
+            ("partial_sort", r"CELER_FUNCTION void partial_sort\(RandomAccessIt first,", "void partial_sort(RandomAccessIt first, RandomAccessIt middle, RandomAccessIt last)"),
+            ("heapsort_impl", r"^heapsort_impl\(RandomAccessIt first, RandomAccessIt last, Compare comp\)", "void heapsort_impl(RandomAccessIt first, RandomAccessIt last)"),
+        ]
+        for nm, loc, sig in sigs:
+            pc = ctx.func(IMPL, loc, HEAP_RULES, name="detail::" + nm)
+            fns.append(sig + "\n{" + pc.body + "}\n")
+        return (HDR + "#include <stddef.h>\ntypedef %s T; typedef T value_type; typedef T* RandomAccessIt; typedef ptrdiff_t difference_type;\n" % T
+                + "#define VERIF_COMP(a, b) ((a) < (b))   /* Compare = Less<> */\n"
+                + "static void trivial_swap(T* a, T* b)\n{" + sw.body + "}\n" + "".join(fns) + """
+#define N %d
+void h_sort(void)
+{
+    T a[N + 1], a0[N + 1]; unsigned n; T w;
+    __CPROVER_assume(n <= N);
+    for (unsigned i = 0; i <= N; ++i) { %s a0[i] = a[i]; }
+    heapsort_impl(a, a + n);
+    unsigned c0 = 0, c1 = 0;
+    for (unsigned i = 0; i <= N; ++i)
+    {
+        if (i < n)
+        {
+            if (i + 1 < n) __CPROVER_assert(!(a[i + 1] < a[i]), "sort.sorted: result is non-decreasing (std::sort)");
+            c0 += (a0[i] == w); c1 += (a[i] == w);
+        }
+        else
+            __CPROVER_assert(a[i] == a0[i], "sort.frame: nothing outside [first, last) written");
+    }
+    __CPROVER_assert(c0 == c1, "sort.permutation: multiset of elements preserved (witness value)");
+    VERIF_CANARY();
+}
+""" % (N, "__CPROVER_assume(!__CPROVER_isnand(a[i]));" if T == "double" else ""))
+    return build
+
+
+UNITS += [
+    Unit("c18_partition_n6", build_partition(6), "h_partition", unwind=9, timeout=600, bounded="all arrays of length <= 6, elements < 32, every predicate on them (symbolic table)",
+         must_have=[r"partition.split", r"partition.permutation", r"unwinding assertion"], checks=["--bounds-check", "--pointer-check"], no_canary=False,
+         note="partition_impl == std::partition semantics (bounded)"),
+    Unit("c18_heapsort_u4", build_heapsort("unsigned", 4), "h_sort", unwind=7, timeout=900, bounded="all unsigned arrays of length <= 4 (every permutation and multiset, symbolic contents)",
+         must_have=[r"sort.sorted", r"sort.permutation", r"unwinding assertion"], checks=["--bounds-check", "--pointer-check"],
+         note="heapsort_impl (sift_down, pop_heap, make_heap, sort_heap, partial_sort): sorted permutation (bounded)"),
+    Unit("c18_heapsort_u6", build_heapsort("unsigned", 6), "h_sort", unwind=9, timeout=3600, tier="thorough", bounded="all unsigned arrays of length <= 6",
+         must_have=[r"sort.sorted", r"sort.permutation", r"unwinding assertion"], checks=["--bounds-check", "--pointer-check"],
+         note="heapsort_impl: sorted permutation (bounded, thorough)"),
+    Unit("c18_heapsort_d5", build_heapsort("double", 5), "h_sort", unwind=8, timeout=3600, tier="thorough", bounded="all NaN-free double arrays of length <= 5",
+         must_have=[r"sort.sorted", r"sort.permutation", r"unwinding assertion"], checks=["--bounds-check", "--pointer-check"],
+         note="heapsort_impl<double>: sorted permutation (bounded, thorough)"),
+]
